@@ -70,8 +70,13 @@ def generate(r, tier):
     invs = []
     for _ in range(r.randint(1, 4)):
         inv = {"files": r.sample(files, r.randint(1, len(files))) if files else [], "renames": [], "includes": []}
-        if rfiles and r.random() < 0.2:
-            inv["renames"] = r.sample(rfiles, 1)
+        if rfiles and r.random() < 0.25:
+            inv["renames"] = r.sample(rfiles, r.randint(1, min(3, len(rfiles))))
+        # command-line order of defaults files and explicit rename files (adjacent rename files included)
+        order = [["f", i] for i in range(len(inv["files"]))] + [["r", i] for i in range(len(inv["renames"]))]
+        if r.random() < 0.6:
+            r.shuffle(order)
+        inv["order"] = order
         if r.random() < 0.2:
             inv["includes"] = [r.choice(dirs)]
         invs.append(inv)
@@ -161,7 +166,9 @@ def execute(sc, ctx):
     with simproc.env(IDF_PATH=root), simfs.Installed(fs, [cdo], copyfile=False), simproc.quiet(stdout=True):
         for ii, inv in enumerate(sc["invocations"]):
             exp, checked = model(sc, inv)
-            args = [os.path.join(root, f) for f in inv["files"]] + [os.path.join(root, f) for f in inv["renames"]]
+            order = inv.get("order") or ([["f", i] for i in range(len(inv["files"]))] + [["r", i] for i in range(len(inv["renames"]))])
+            args = [os.path.join(root, (inv["files"] if kind == "f" else inv["renames"])[i]) for kind, i in order
+                    if i < len(inv["files"] if kind == "f" else inv["renames"])]
             incs = [os.path.join(root, d) for d in inv["includes"]]
             try:
                 fl, g, l, ign, cache, absidf = cdo._prepare_deprecated_options(incs, [], list(args))
@@ -259,6 +266,7 @@ def reductions(sc):
                     continue
                 c = copy.deepcopy(sc)
                 del c["invocations"][i][key][j]
+                c["invocations"][i].pop("order", None)
                 yield c
     used = {f for inv in sc["invocations"] for f in inv["files"] + inv["renames"]}
     for i, e in enumerate(sc["tree"]):
